@@ -14,6 +14,7 @@ import time
 from typing import Any, Callable, Iterable
 
 VERIF = os.path.dirname(os.path.dirname(os.path.abspath(__file__)))
+OUT = os.environ.get("VERIF_OUT_DIR", VERIF)  # evidence/ and replays/ live here (overridden only by the seed matrix)
 EVIDENCE_SCHEMA = "/root/.vp/EVIDENCE.schema.json"
 NCPU = min(16, os.cpu_count() or 1)
 
@@ -158,7 +159,7 @@ def write_evidence(ctx: Ctx, report: Report, wall: float, nviol: int) -> str:
         "wall_s": round(wall, 3),
         "violations": nviol,
     }
-    path = os.path.join(VERIF, "evidence", f"{ctx.prop}.json")
+    path = os.path.join(OUT, "evidence", f"{ctx.prop}.json")
     os.makedirs(os.path.dirname(path), exist_ok=True)
     tmp = path + ".tmp"
     with open(tmp, "w", encoding="utf-8") as f:
@@ -195,7 +196,7 @@ def validate_evidence(path: str, ev: dict) -> None:
 
 
 def write_replay(prop: str, v: Violation, tier: str) -> str:
-    d = os.path.join(VERIF, "replays")
+    d = os.path.join(OUT, "replays")
     os.makedirs(d, exist_ok=True)
     path = os.path.join(d, f"{prop}-{digest(v.key)}.json")
     with open(path, "w", encoding="utf-8") as f:
